@@ -795,12 +795,14 @@ pub enum Source {
     Big,
     Enumerated,
     Echo,
+    Overlap,
 }
 
 impl Source {
     pub fn name(&self) -> &'static str {
         match self {
             Source::Echo => "echo (doubled terminals, self-embedding, nullable)",
+            Source::Overlap => "overlap (several wide enums of single-terminal alternatives over shared terminals)",
             Source::Corpus => "corpus",
             Source::CorpusEmbedded => "corpus-embedded",
             Source::Random => "random-reduced",
@@ -890,6 +892,33 @@ pub fn echo_cfg(rng: &mut Rng) -> (Cfg, Vec<bool>) {
     (Cfg { nn: 2, nt: 3, rules, start: 0 }, vec![rng.chance(0.5), true])
 }
 
+/// Two to four wide enums whose alternatives are single terminals drawn from one shared pool (token
+/// classes: `Keyword -> if | else | ...`, `Name -> id | if | ...`), told apart only by the terminal that
+/// follows: `S -> E z1 | F z2 | G z3`.  Dozens of states whose ACTION rows hold nothing but reduces, with
+/// rule numbers spread over a wide range, differing from state to state in one or two columns - and the
+/// reduced variants are unit-like, so only the TREE tells a wrong reduce from a right one.
+pub fn overlap_cfg(rng: &mut Rng) -> (Cfg, Vec<bool>) {
+    let k = *rng.pick(&[6usize, 12, 20, 31, 32, 33, 40, 64]);
+    let enums = rng.range(2, 4);
+    // terminals: 0..k shared pool, then the followers z_1..z_enums (adjacent columns), declared last
+    let nt = k + enums;
+    let mut rules = vec![];
+    for e in 0..enums {
+        rules.push(Rule { lhs: 0, rhs: vec![Sym::N(1 + e), Sym::T(k + e)] });
+    }
+    for e in 0..enums {
+        let mut alts: Vec<usize> = (0..k).filter(|_| rng.chance(0.7)).collect();
+        if alts.is_empty() {
+            alts.push(rng.below(k));
+        }
+        rng.shuffle(&mut alts);
+        for a in alts {
+            rules.push(Rule { lhs: 1 + e, rhs: vec![Sym::T(a)] });
+        }
+    }
+    (Cfg { nn: 1 + enums, nt, rules, start: 0 }, vec![true; 1 + enums])
+}
+
 /// Unused terminals and unreachable nonterminals up to a threshold count (63/64/65, 127/128/129,
 /// 255/256/257): the *declared* counts size tables, bit sets and index types, whether or not the
 /// symbols are used.
@@ -928,6 +957,10 @@ fn grammar_for_case_inner(rng: &mut Rng) -> (Source, Cfg, Vec<bool>) {
     if rng.below(14) == 0 {
         let (c, f) = echo_cfg(rng);
         return (Source::Echo, c, f);
+    }
+    if rng.below(40) == 0 {
+        let (c, f) = overlap_cfg(rng);
+        return (Source::Overlap, c, f);
     }
     match rng.below(26) {
         24..=25 => {
